@@ -132,15 +132,51 @@ Definition obs_agree (o : obs) (r : rstep) : bool :=
 
 Inductive rmerk := RMOk (root : limbs) | RMErr.
 
+(* steps of a scenario on a caller-provided tree shared by several merklizers *)
+Inductive rgstep :=
+| RGMerk (cfg : bool) (es : list rentry) (ok : bool)   (* MerklizeJSONLD(.., WithMerkleTree(shared)) *)
+| RGAdd (k v : snum) (ok : bool)                       (* tree.Add on the shared tree *)
+| RGOn (i : int) (r : rstep).                          (* a caller step on merklizer number i *)
+
 Inductive mcase :=
 | mkm (id : int) (cfg : bool) (hc hd : raw_hasher) (thl thm : raw_ttab)
       (es : list rentry) (mo : rmerk) (steps : list rstep)
   (* dataset-level case: the normalised dataset json-gold produced instead of the
      entries, so that value conversion under the hasher's prime is inside the model *)
 | mkd (id : int) (cfg : bool) (hc hd : raw_hasher) (thl thm : raw_ttab)
-      (rf : raw_floats) (ds : dataset) (mo : rmerk) (steps : list rstep).
+      (rf : raw_floats) (ds : dataset) (mo : rmerk) (steps : list rstep)
+  (* shared-tree scenario: the tree is script state (Script.grun) *)
+| mks (id : int) (hc hd : raw_hasher) (thl thm : raw_ttab) (gsteps : list rgstep).
 Definition mc_id (c : mcase) : int :=
-  match c with mkm id _ _ _ _ _ _ _ _ => id | mkd id _ _ _ _ _ _ _ _ _ => id end.
+  match c with
+  | mkm id _ _ _ _ _ _ _ _ => id | mkd id _ _ _ _ _ _ _ _ _ => id | mks id _ _ _ _ _ => id
+  end.
+
+Fixpoint gagree (T : tparams) (Hd Hc : hasher) (st : shared) (gs : list rgstep) : bool :=
+  match gs with
+  | [] => true
+  | RGMerk cfg es ok :: rest =>
+      let '(st', o) := gstep_run T Hd st
+                         (GMerklize (if cfg then Some Hc else None) (map entry_of es)) in
+      match o with
+      | GOMerk (Ok _) => ok
+      | GOMerk (Err _) => negb ok
+      | _ => false
+      end && gagree T Hd Hc st' rest
+  | RGAdd k v ok :: rest =>
+      let '(st', o) := gstep_run T Hd st (GAdd (z_of_snum k) (z_of_snum v)) in
+      match o with
+      | GOAdd (Ok _) => ok
+      | GOAdd (Err _) => negb ok
+      | _ => false
+      end && gagree T Hd Hc st' rest
+  | RGOn i r :: rest =>
+      let '(st', o) := gstep_run T Hd st (GOn (nat_of_int i) (step_of r)) in
+      match o with
+      | GOStep (Some ob) => obs_agree ob r
+      | _ => false
+      end && gagree T Hd Hc st' rest
+  end.
 
 Definition max_levels : nat := 40.
 
@@ -173,6 +209,11 @@ Definition case_agree (q : Z) (c : mcase) : bool :=
       | Err _, RMErr => true
       | _, _ => false
       end
+  | mks _ hc hd thl thm gsteps =>
+      let tl := mk_ttab thl in
+      let tm := mk_ttab thm in
+      let T := mktp (fun a b => tlook2 a b tl) (fun a b => tlook2 a b tm) max_levels q in
+      gagree T (mk_hasher hd) (mk_hasher hc) shared_init gsteps
   end.
 
 Definition mmismatches (q : limbs) (cs : list mcase) : list int :=
